@@ -205,6 +205,9 @@ class EVPN(NLRI):
         esi_data_hex = b''
         if esi_type == bgp_cons.ESI_BGPNLRI_EVPN_TYPE_0:
             # esi_bytes = esi_value.to_bytes(9, byteorder='big')
+            # type octet + 9-octet value (RFC 7432 section 5)
+            if not 0 <= esi_value < 2 ** 72:
+                raise ValueError('ESI type 0 value does not fit 9 octets')
             esi_bytes = hex(esi_value).split('0x')[1]
             len_esi_value = len(esi_bytes)
             if len_esi_value < 18:
